@@ -215,6 +215,9 @@ func ows(r *rand.Rand) string { return pick(r, []string{"", "", " ", "  ", "\t",
 
 // genCacheControl builds a Cache-Control value from the grammar; forbid reports whether it
 // carries no-store / no-cache / private as a real directive; maxAge is the first positive max-age.
+// ccNoHuge: set while scripts are generated for a middleware whose TTLs are reconstructed from the stored entry.
+var ccNoHuge bool
+
 func genCacheControl(r *rand.Rand) (val string, forbid bool, maxAge int64) {
 	n := 1 + r.Intn(4)
 	var parts []string
@@ -227,6 +230,9 @@ func genCacheControl(r *rand.Rand) (val string, forbid bool, maxAge int64) {
 			forbid = true
 		case k < 6:
 			secs := pick(r, []int64{0, 1, 60, 300, 86400, 9223372036, 9223372037, 18446744074, -5})
+			if ccNoHuge && secs > 1000000000 {
+				secs = 604800 // the TTL is read back from the stored entry there: near-MaxInt64 lifetimes saturate and are indistinguishable
+			}
 			s := fmt.Sprint(secs)
 			if r.Intn(6) == 0 {
 				s = pick(r, []string{"abc", "", "1.5", "+30", "1_0", "99999999999999999999"})
@@ -270,6 +276,7 @@ func streamHTTP(o opts) {
 		// every third middleware keeps the policy New installed (the configuration resolved inside New); the TTL is
 		// then read back from the stored entry instead of from a wrapping policy
 		ownPolicy := mi%3 == 2
+		ccNoHuge = ownPolicy
 		if ownPolicy && (mi/3)%2 == 0 {
 			cfg.CacheableStatus = []int{} // resolved twice inside New (config, then the policy built from it)
 		}
